@@ -1,1 +1,38 @@
-fn main() {}
+//! Engine E4 `thr`: concurrency of primitives on real OS threads.
+//!   thr c34 ...   worker channels (thread stress on shards >= --miri-shards, Miri on the others)
+//!   thr c42 ...   std runtime: Sleep / Executor / block_on / block_timeout
+mod c34;
+mod c42;
+mod miri;
+mod wk;
+
+use vcore::{Args, Report};
+
+fn main() {
+    let args = Args::parse();
+    let cmd = args.pos.first().cloned().unwrap_or_default();
+    let out = args.str("out", "-");
+    let shard = args.u64("shard", 0);
+    let nshards = args.u64("nshards", 1).max(1);
+    match cmd.as_str() {
+        "c34" => {
+            let mut rep = Report::new("C34");
+            let nmiri = if args.has("replay") { 0 } else { args.u64("miri-shards", 0).min(nshards.saturating_sub(1)) };
+            if shard < nmiri {
+                miri::run_miri(&args, &mut rep, shard, nmiri);
+            } else {
+                c34::run_stress(&args, &mut rep, shard - nmiri, nshards - nmiri);
+            }
+            rep.write(&out);
+        }
+        "c42" => {
+            let mut rep = Report::new("C42");
+            c42::run(&args, &mut rep, shard, nshards);
+            rep.write(&out);
+        }
+        _ => {
+            eprintln!("usage: thr <c34|c42> --seed N --shard I --nshards N --cases N --tier quick|thorough --out FILE");
+            std::process::exit(2);
+        }
+    }
+}
